@@ -216,6 +216,24 @@ class HeteroPool:
         self.close()
 
 
+class Skips:
+    """Jobs of the system under test that ran into the per-job time limit are skipped (not judged) up to a small
+    budget; beyond it the run is a harness error.  A slow path in the code under test must not hide every other case."""
+
+    def __init__(self, limit):
+        self.limit = limit
+        self.timeouts = 0
+
+    def take(self, res):
+        """-> result, or None if the job timed out (counted)."""
+        if res is not None and "harness_error" in res and "timeout" in res["harness_error"]:
+            self.timeouts += 1
+            if self.timeouts > self.limit:
+                raise HarnessError(f"{self.timeouts} jobs exceeded their time limit: {res['harness_error']}")
+            return None
+        return unwrap(res)
+
+
 def unwrap(res):
     """Result of a job or raise HarnessError."""
     if res is None or "harness_error" in res:
